@@ -194,12 +194,16 @@ var verifC26zero sync.WaitGroup
 // nothing panics or deadlocks; once everything has settled the registry is consistent
 // (look-up succeeds iff the name is listed; the null pipe is still there) and a name whose
 // last accepted operation was a close or delete is gone.
+var verifC26pre int
+
 func VerifC26Concurrent() {
 	_ = streams.DefaultMaxBufferSize
 	nt, k := rt.Param("threads"), rt.Param("k")
 	reg := NewNamed()
+	verifC26pre = 0
 	if rt.Choice("exists", 2) == 1 {
 		rt.Assert(reg.CreatePipe("a", "std", "") == nil, "cannot create a pipe")
+		verifC26pre = 1
 	}
 	ops := make([][]int, nt)
 	for t := range ops {
@@ -249,6 +253,29 @@ func VerifC26Concurrent() {
 	rt.Assert(listed == (err == nil), "registry inconsistent: listing and look-up disagree")
 	_, err = reg.Get("null")
 	rt.Assert(err == nil, "the null pipe disappeared")
+	{
+		// names are unique among live pipes: without a close or delete in the history at most
+		// one creation of the name can ever have been accepted (the pre-existing pipe counts)
+		removes, tried := false, false
+		for t := range ops {
+			for _, op := range ops[t] {
+				if op == 1 || op == 2 {
+					removes = true
+				}
+				if op == 0 {
+					tried = true
+				}
+			}
+		}
+		if !removes {
+			accepted := creates + verifC26pre
+			rt.Assert(accepted <= 1, "two creations of the same live name were both accepted")
+			if tried {
+				rt.Assert(accepted == 1 && listed, "a creation of a free name was refused or the pipe is not listed")
+				rt.Reach("create-unique")
+			}
+		}
+	}
 	if creates == 0 {
 		closes := false
 		for t := range ops {
